@@ -169,9 +169,9 @@ def check_cases(cases: list[dict], rep: Report, known: dict) -> None:
         case = dict(info, p=ptxt, form=label, output=repr(out)[:500], model_in=sb[jf], model_out=sb[of])
         ok = a_out[0] == "ok" and answers_agree(a_in, a_out)
         if ok and q_in[0] == "ok" and q_out[0] == "ok" and q_in[1].rep and q_out[1].rep and q_in[1].q != q_out[1].q:
-            if common.tree_has(wire.build_raw(c["e"]), common.libm_site):
-                # constant folding goes through libm (cbrt, **, log): not exact even at exactly representable
-                # results (the recorded finding K3, seen here through a folded constant) - within the bound is enough
+            if common.tree_has(wire.build_raw(c["e"]), common.libm_site) or not common.constants_all_dyadic(out):
+                # constant folding rounds: through libm (cbrt, **, log: the recorded finding K3 seen through a
+                # folded constant) or by plain division (6 * (1/5) is 1.2000000000000002) - within the bound is enough
                 rep.count("semantic", "preserved(inexact-libm-folding)")
                 continue
             ok = False
